@@ -321,6 +321,13 @@ func (it *Iterator) Seek(key []byte) {
 	// Move to the next node at level 0, which should be >= target
 	it.current = current.getNext(0)
 
+	// Iterators are not protected by the table's lock: the writer may have
+	// linked smaller keys behind current since the search above passed it.
+	// Step over them so that the position is never in front of the target.
+	for it.current != nil && it.current.entry.compare(key) < 0 {
+		it.current = it.current.getNext(0)
+	}
+
 	// Skip nodes that are not visible in our snapshot
 	for it.current != nil && it.current != it.list.head && !it.isVisible(it.current) {
 		it.current = it.current.getNext(0)
